@@ -97,6 +97,8 @@ class Renderer(object):
                 declared.add(x["x"])
             if e in ("for", "forin", "collect"):
                 declared.add(x["x"])
+            if e == "pfor":
+                declared.update(it["x"] for it in x["its"])
             for v in x.values():
                 self.assigned(v, acc, declared)
         elif isinstance(x, list):
@@ -237,6 +239,10 @@ class Renderer(object):
             return "for %s in %s..%s%s repeat %s" % (self.nm(x["x"]), self.ex(x["lo"]), self.ex(x["hi"]), self.filt(x), self.ex(x["body"]))
         if e == "forin":
             return "for %s in %s%s repeat %s" % (self.nm(x["x"]), self.ex(x["src"]), self.filt(x), self.ex(x["body"]))
+        if e == "pfor":
+            its = " ".join("for %s in %s" % (self.nm(it["x"]), ("%s..%s" % (self.ex(it["lo"]), self.ex(it["hi"]))) if it["k"] == "range"
+                                             else self.ex(it["src"])) for it in x["its"])
+            return "%s%s repeat %s" % (its, self.filt(x), self.ex(x["body"]))
         if e == "break":
             return "break"
         if e == "iterate":
@@ -482,6 +488,14 @@ def _fun_refs(body, bound):
                         walk(v, bnd)
                 walk(x.get("filt"), bnd | {x["x"]})
                 walk(x["body"], bnd | {x["x"]})
+                return
+            if e == "pfor":
+                names = set(it["x"] for it in x["its"])
+                for it in x["its"]:
+                    for k in ("lo", "hi", "src"):
+                        walk(it.get(k), bnd)
+                walk(x.get("filt"), bnd | names)
+                walk(x["body"], bnd | names)
                 return
             if e == "where":
                 for dd in x["defs"]:
